@@ -28,15 +28,16 @@ TIE = ("S: closed-loop step refinement — the silent tail of every simulated hi
 LEVEL_TEXT = (
     "Lean theorems for every state of the closed loop (any records, last-handled state, memory flags, clock, handler set, "
     "lifecycle, limits, delays — no bounds): terminates (explicit bound 2·unfinished+awake+extras+1+keepalive rounds, ranking "
-    "function), final_state (last-handled = essence, fully handled, a further event causes no write), quiescent_stays, "
+    "function), final_state (last-handled = essence, fully handled, a further event causes no write), converges, quiescent_stays, "
     "all_selected_completed + invoked_once_after_last_change (via C02), restart_safe (any restart/kill point incl. after the "
     "server applied the last write), accumulated_change. The clause 'no progress records remain' is FALSE of the code: "
     "no_records_partial under the exact guard, stale_record_survives_witness / reverted_change_witness / blind_witness, and "
     "absorbed_change_witness for 'completed against the final state' (known findings C03-F1..F4, each replayed on the real "
-    "operator in every run). The model is hand-written and tied per pass to whole-operator simulations; finalizers/deletion "
+    "operator in every run; C03-F5, a lost wake-up after a 422 on a finalizer patch, lies in the part the model leaves to C06/C08 "
+    "and is found and replayed by the oracle only). The model is hand-written and tied per pass to whole-operator simulations; finalizers/deletion "
     "(C06), daemons (C09), consistency wait (C07) are outside this model and covered by the oracle only.")
 THEOREMS = [("Kopf.Props.C03", "Kopf.C03." + n) for n in [
-    "terminates", "final_state", "quiescent_stays", "no_records_partial", "all_selected_completed",
+    "terminates", "final_state", "converges", "quiescent_stays", "no_records_partial", "all_selected_completed",
     "invoked_once_after_last_change", "restart_safe", "accumulated_change", "blind_quiescent",
     "stale_record_survives_witness", "reverted_change_witness", "blind_witness", "absorbed_change_witness"]]
 RULE = ("seeded histories of one object: 1-4 change handlers (create/update/resume/delete, label filters, retries/timeout/backoff/"
@@ -51,6 +52,7 @@ TRUSTED = ["harness/sim (virtual-time loop, fake API server, scripted handlers, 
            "abstraction of the tail's first pass: records decoded with kopf's own progress storage (C16's subject), "
            "last-handled vs essence taken from kopf's own diff (C04's subject)"]
 ASSUMPTIONS = ["handlers are instantaneous (no awaits inside scripted handlers): both clock readings of a pass coincide",
+               "handlers return no result (no status.<handler> write besides the progress record)",
                "randomized/shuffled lifecycles are not modelled; filters are label filters (read the essence only)",
                "an object that no changing handler's filters accept is out of the framework's sight by design "
                "(processing.py: 'be blind to it, store no state'): for it only 'stops writing' and 'no records remain' are checked",
@@ -67,6 +69,7 @@ TQ = 16.0
 SIG_F1 = {"site": "process_changing_cause", "shape": "skip path (handler reason, no selected handlers): cycle closed, stale progress record of a no-longer-selected handler never purged"}
 SIG_F2 = {"site": "process_resource_causes", "shape": "object stopped matching every handler (prematch): stale progress record stays on the object"}
 SIG_F3 = {"site": "process_changing_cause", "shape": "change reverted to the last-handled state while a handler was retrying: no-op cause leaves its progress record forever"}
+SIG_F5 = {"site": "process_resource_causes+apply", "shape": "cycle entered with a carried remaining patch that produces no request: state-dependent handlers skipped, nothing written, no further event — handling never resumes"}
 SIG_F4 = {"site": "process_changing_cause", "shape": "handler finished on an older state of a still-open cycle is not re-run for the newer state, yet last-handled becomes the newer state"}
 
 
@@ -150,6 +153,14 @@ def _all_ids(sc: dict) -> list[str]:
     return out
 
 
+def _calls_of(tr: dict, c: dict, kind: str | None = None) -> list[dict]:
+    """The handler calls made inside processing cycle `c` (matched by incarnation, object, id+retry and time)."""
+    inv = {(i["id"], i["retry"]) for i in c["invoked"]}
+    return [call for call in tr["calls"]
+            if call["inc"] == c["inc"] and call["uid"] == c["uid"] and (call["id"], call.get("retry")) in inv
+            and c["t0"] <= call["t"] <= c.get("t1", call["t"]) and (kind is None or call["kind"] == kind)]
+
+
 def _canon_diff(d: Any) -> list:
     return sorted(([str(x[0]), list(x[1]), x[2], x[3]] for x in (d or [])), key=leanio.canon)
 
@@ -188,6 +199,16 @@ class Facts:
         self.fin_cycles = [c for c in tr["cycles"] if c["uid"] == self.uid and self.final is not None
                            and c["event_type"] != "DELETED" and py_essence(c["body"]) == self.ess and c["t0"] >= self.t_ess]
         self.last_inc = tr["incarnations"][-1]["inc"] if tr.get("incarnations") else None
+        # lost wake-up: the object's last processing cycle started with a carried remaining patch (after a 422 on a
+        # finalizer JSON-patch), skipped the handlers for that reason and then issued no request at all
+        mine = [c for c in tr["cycles"] if c["uid"] == self.uid and c["inc"] == self.last_inc]
+        self.lost_wakeup = False
+        if mine and self.final is not None:
+            c = mine[-1]
+            mb = c.get("mem_before") or {}
+            who = f"op#{self.last_inc}"
+            self.lost_wakeup = bool(c.get("pcc") is None and mb.get("remaining_patch")
+                                    and not any(r.get("who") == who and r["wall"] >= c["t0"] for r in self.patches))
 
 
 # ---- the oracle -------------------------------------------------------------------------------------------
@@ -246,6 +267,14 @@ def oracle(ctx: Ctx, sc: dict, tr: dict) -> dict:
         return out
 
     base = py_base(f.final)
+    if f.lost_wakeup and not f.blind and base != f.ess:
+        ctx.oracle_fail("handling stopped for good with the change still outstanding: the last cycle carried a remaining patch, "
+                        "skipped the handlers and wrote nothing, so no event will ever re-trigger it",
+                        {**rep, "last_handled": base, "essence": f.ess, "annotations": sorted((f.final["metadata"].get("annotations") or {}))},
+                        SIG_F5)
+        out["class"] = "lost-wakeup"
+        out["findings"].append("C03-F5")
+        return out
     if not f.blind and base != f.ess:
         ctx.oracle_fail("recorded last-handled state differs from the final essential state at quiescence",
                         {**rep, "last_handled": base, "essence": f.ess},
@@ -291,9 +320,8 @@ def oracle(ctx: Ctx, sc: dict, tr: dict) -> dict:
                 ev = [c for c in f.fin_cycles if c.get("pcc") and (c["pcc"].get("outcomes") or {}).get(hid, {}).get("final")]
                 if ev:
                     for c in ev:
-                        for call in tr["calls"]:
-                            if call["id"] == hid and call["uid"] == f.uid and c["t0"] <= call["t"] <= c.get("t1", call["t"]) \
-                                    and call.get("body") is not None and py_essence(call["body"]) != f.ess:
+                        for call in _calls_of(tr, c):
+                            if call["id"] == hid and call.get("body") is not None and py_essence(call["body"]) != f.ess:
                                 ctx.oracle_fail(f"handler {hid} completed in a pass on the final state but was given another body",
                                                 {**rep, "call": call}, {"site": "execute_handler_once", "shape": "handler body differs from the pass body"})
                     continue
@@ -361,8 +389,8 @@ def accumulated(ctx: Ctx, sc: dict, tr: dict, out: dict) -> None:
                                 {"scenario": sc, "cycle": c["i"], "diff": c["cause"]["diff"], "expected": exp},
                                 {"site": "detect_changing_cause", "shape": "downtime edits not seen as one accumulated change"})
                 break
-            for call in tr["calls"]:
-                if call["uid"] == uid and call["kind"] == "update" and c["t0"] <= call["t"] <= c.get("t1", call["t"]) and call["inc"] == c["inc"]:
+            for call in _calls_of(tr, c, "update"):
+                if True:
                     if call.get("old") != base_up or call.get("new") != ess_up:
                         ctx.oracle_fail("update handler after a downtime did not get old=last-handled, new=state at start",
                                         {"scenario": sc, "call": {k: call.get(k) for k in ("id", "t", "old", "new")}},
@@ -382,7 +410,8 @@ def abstract_tail(sc: dict, tr: dict, cap: int) -> tuple[list | None, Any]:
         return None, "gone-or-marked"
     if float(sc.get("settings", {}).get("watching.server_timeout", 4096.0)) < f.end:
         return None, "relisting-in-tail"
-    cycles = [c for c in tr["cycles"] if c["uid"] == f.uid and c["inc"] == f.last_inc and c["t0"] >= f.t_sil
+    # the tail: the last incarnation's passes on bodies that carry the last external (essence-changing) write
+    cycles = [c for c in tr["cycles"] if c["uid"] == f.uid and c["inc"] == f.last_inc and c["t0"] >= f.t_ess
               and int(c["rv"]) >= f.rv_ess and c["event_type"] != "DELETED"]
 
     def suppressed(c: dict) -> bool:
@@ -398,11 +427,7 @@ def abstract_tail(sc: dict, tr: dict, cap: int) -> tuple[list | None, Any]:
         return None, "cycle-error"
     decls = c14._decls(sc)
     owned = [d["id"] for d in decls]
-    who = None
-    for r in reversed(tr["requests"]):
-        if str(r.get("who", "")).startswith("op#"):
-            who = r["who"]
-            break
+    who = f"op#{f.last_inc}"      # the session identity of the incarnation that lives through the tail
     ends = [c["t0"] for c in cycles[1:]] + [f.end + 1.0]
     passes = []
     table: dict[str, dict[str, dict]] = {}
@@ -577,6 +602,7 @@ def gen_scenario(rng: Any, i: int) -> dict:
     sc["timeline"] = tl
     if wfaults:
         sc["wfaults"] = wfaults
+    t = max([e[0] for e in tl], default=0.0)
     sc["t_silence"] = t
     sc["tq"] = TQ
     sc["end"] = t + 48.0 + 1.5 * fail_time + 2 * TQ
